@@ -110,7 +110,12 @@ def opSpec : Handler := fun j => do
     ("t", jOut3 (cols.map (fun a => rows.map (fun i => cols.map (fun b => PairwiseSpec.tSpec rs useSq i a b))))),
     ("p", jOut3 (cols.map (fun a => rows.map (fun i => cols.map (fun b => PairwiseSpec.pSpec rs useSq i a b)))))])
 
+/-- op `pw_path`: {cols_mr, overlap, valid_overlap} ↦ does the overlap-corrected variant run? -/
+def opPath : Handler := fun j => do
+  pure (jObj [("overlap_path", .bool (usesOverlapPath (← getBool j "cols_mr") (← getBool j "overlap")
+                                                         (← getBool j "valid_overlap")))])
+
 def ops : List (String × Handler) :=
-  [("pw", opPw), ("pw_alpha", opAlpha), ("pw_means", opMeans), ("pw_overlap", opOverlap), ("pw_spec", opSpec)]
+  [("pw", opPw), ("pw_alpha", opAlpha), ("pw_means", opMeans), ("pw_overlap", opOverlap), ("pw_spec", opSpec), ("pw_path", opPath)]
 
 end CrCube.Driver.Pairwise
